@@ -129,10 +129,10 @@ pub const PROPS: &[PropSpec] = &[
     PropSpec {
         id: "C04",
         engine: "e1",
-        mix: &[],
+        mix: &[("e1", 4), ("e4", 1)],
         classes: &["crash/"],
-        nontrivial: &[&["cut:inside-operation"]],
-        must_reach: &["image:kill", "image:power-drop", "image:torn", "cut:inside-operation", "cas:sized", "cas:stream", "frame:>8KiB", "remove", "import", "gc:step", "flush", "reopen-in-recording"],
+        nontrivial: &[&["cut:inside-operation", "fault:blocking-pool-stalled"]],
+        must_reach: &["image:kill", "image:power-drop", "image:torn", "cut:inside-operation", "cas:sized", "cas:stream", "frame:>8KiB", "remove", "import", "gc:step", "flush", "reopen-in-recording", "fault:blocking-pool-stalled"],
         quick_runs: 480,
         thorough_runs: 24_000,
         rule: "per sampled workload (3-14 sequential operations: append with small / >8KiB / 100KiB frames, both CAS write paths, remove, import, head/time TTL with single collector steps, forced flush, reopen inside the recording) EVERY prefix of the recorded file-operation log is a cut point; per cut a process-kill image plus, where unsynced bytes exist, a power-loss image with all unsynced bytes dropped and 1-2 torn variants; evaluations = workloads, images counted in probes.images; non-trivial = at least one cut fell strictly inside an operation; distinct = distinct workload trace hash",
